@@ -20,12 +20,12 @@ import (
 
 // Case index space (what a replay file's "case" refers to).
 const (
-	offM1   = 0       // batch index of monitor 1
-	offDeep = 100000  // deep input index
-	offM3   = 200000  // containment scenario
-	offM4   = 300000  // cancellation scenario
-	m1Batch = 200     // cases per child process
-	maxPar  = 6       // child processes in flight per shard
+	offM1   = 0      // batch index of monitor 1
+	offDeep = 100000 // deep input index
+	offM3   = 200000 // containment scenario
+	offM4   = 300000 // cancellation scenario
+	m1Batch = 200    // cases per child process
+	maxPar  = 6      // child processes in flight per shard
 	deepPar = 4
 )
 
